@@ -171,6 +171,9 @@ func inSection(p string) bool {
 	return p == "" // the whole document lies above both sections
 }
 
+// Pointers that do not start with "/" are not RFC 6901 pointers; what they address is engine-specific, so the
+// structural predicate does not judge them - the behavioural oracle (sections unchanged after application) does.
+
 func refJSONPatchOK(v interface{}) string {
 	list, ok := v.([]interface{})
 	if !ok {
@@ -286,8 +289,8 @@ func c18ServiceVariants() []interface{} {
 }
 
 func c18JSONOps() []interface{} {
-	paths := []interface{}{"/x", "/x/0", "/x/-", "/x/-1", "/x/9", "/x/y", "/publicKey", "/publicKey/0", "/publicKey/0/id", "/service", "/service/0/id", "/publicKeyX", "/services", "", "/", "/a~1b", "/x~0", absent{}, 5.0, nil, "x", "/publicKey/-"}
-	froms := []interface{}{"/x", "/x/0", "/publicKey", "/publicKey/0", "/service/0", "/service", "", "/nope", absent{}, 5.0, "/x/-", "/x/-1"}
+	paths := []interface{}{"/x", "/x/0", "/x/-", "/x/-1", "/x/9", "/x/y", "/publicKey", "/publicKey/0", "/publicKey/0/id", "/service", "/service/0/id", "/publicKeyX", "/services", "", "/", "/a~1b", "/x~0", absent{}, 5.0, nil, "x", "/publicKey/-", "x/service", "x/publicKey", "service", "publicKey/0", "x/service/0/id", "~/x"}
+	froms := []interface{}{"/x", "/x/0", "/publicKey", "/publicKey/0", "/service/0", "/service", "", "/nope", absent{}, 5.0, "/x/-", "/x/-1", "x/service", "y/publicKey/0"}
 	values := []interface{}{absent{}, nil, "v", 1.0, []interface{}{1.0, 2.0}, map[string]interface{}{"k": []interface{}{}}}
 	var out []interface{}
 	mk := func(op string, path, from, value interface{}) {
@@ -411,19 +414,34 @@ func c18(r *hx.Run) {
 			r.Nontrivial("rej|" + string(mustJSON(p)))
 		}
 	}
+	good := func(id string) map[string]interface{} {
+		return fx.KeyEntry(id, fx.NewKey(fx.P256, "c18/g"), []interface{}{"authentication"})
+	}
 	// ---- keys
 	keyVars := c18KeyVariants()
 	hx.ParallelFor(len(keyVars), func(i int) {
 		check("add-keys", i, map[string]interface{}{"action": "add-public-keys", "publicKeys": []interface{}{keyVars[i]}})
 	})
 	r.State()
-	good := func(id string) map[string]interface{} {
-		return fx.KeyEntry(id, fx.NewKey(fx.P256, "c18/g"), []interface{}{"authentication"})
-	}
 	listLevel := []interface{}{[]interface{}{good("k1"), good("k1")}, []interface{}{good("k1"), good("k2")}, []interface{}{good("k1"), good("k2"), good("k1")}, []interface{}{good("k1"), "str"}, []interface{}{},
 		"not-a-list", nil, []interface{}{good("k1"), map[string]interface{}{}}, []interface{}{nil}, []interface{}{[]interface{}{good("k1")}}}
 	for i, l := range listLevel {
 		check("add-keys-list", i, map[string]interface{}{"action": "add-public-keys", "publicKeys": l})
+	}
+	// ---- every printable ASCII character outside the URL-safe set inside an otherwise valid id
+	for c := 0x20; c < 0x7f; c++ {
+		ch := string(rune(c))
+		if c18IDRe.MatchString(ch) {
+			continue
+		}
+		id := "k" + ch + "1"
+		k := good("x")
+		k["id"] = id
+		sv := fx.ServiceEntry("x", "https://example.com/x")
+		sv["id"] = id
+		check("id-char-key", c, map[string]interface{}{"action": "add-public-keys", "publicKeys": []interface{}{k}})
+		check("id-char-service", c, map[string]interface{}{"action": "add-services", "services": []interface{}{sv}})
+		check("id-char-replace", c, map[string]interface{}{"action": "replace", "document": map[string]interface{}{"publicKeys": []interface{}{k}, "services": []interface{}{sv}}})
 	}
 	// ---- services
 	svcVars := c18ServiceVariants()
